@@ -224,7 +224,8 @@ def run(chk, tier, seed, replay):
     mods, decls = [], {}
     for k, c in cases.items():
         has_ptr = any(p["k"] == "ph" and p["tr"] == "Pointer" for p in c["lit"])
-        if not replay and share > 1 and not c["transparent"] and vlib.seeded_pick(k, seed, share if not has_ptr else max(1, share // 4)) != 0:
+        small = len(c["lit"]) <= 1 or not any(p["k"] == "ph" for p in c["lit"])      # text / brace-only literals: all of them
+        if not replay and share > 1 and not c["transparent"] and not small and vlib.seeded_pick(k, seed, share if not has_ptr else max(1, share // 4)) != 0:
             continue
         m, d = render(c, k, vlib.seeded_pick(k, 7, 27 * 5 * 6))
         mods.append((k, m))
